@@ -9,7 +9,7 @@ NAMES = ["a", "b.gmi", "sub", "index.gmi", "index.gemini", "a b.gmi", "é.gmi", 
 def comps(p):
     return [c for c in p.split("/") if c != ""]
 
-def gen_tree(rng, max_nodes=10, links=True):
+def gen_tree(rng, max_nodes=10, links=True, odd_links=False):
     """-> list of (relpath under tmp, kind, payload); tmp-level dirs: root, rootx, outside"""
     nodes = [("root", "d", None), ("rootx", "d", None), ("outside", "d", None),
              ("outside/secret.txt", "f", b"SENTINEL-OUTSIDE-secret"), ("rootx/sib.gmi", "f", b"# SENTINEL-SIBLING-sib\nbody of the sibling page"),
@@ -74,6 +74,18 @@ def gen_tree(rng, max_nodes=10, links=True):
             nodes.append((ev, "l", "../" * (depth + 1) + rng.choice(["outside", "rootx", "outside/secret.txt"])))
             nodes.append((via, "l", rng.choice(["zloop/../zevil", "zevil/../zloop/../zevil", "zloop/../zevil/secret.txt", "./zloop/../zevil"])))
             used |= {lp, ev, via}
+    # link targets that go on after something that is not a directory ("file/..", "missing/..", "file/", "file/."):
+    # posixpath.realpath (Path.resolve) answers lexically, stat() (is_dir(), the size in a listing) fails with
+    # ENOTDIR / ENOENT - Model/Listing.v kstat.  Only for the harnesses that ask for them (C02).
+    if links and odd_links and rng.random() < 0.45:
+        for _ in range(rng.randint(1, 3)):
+            parent = rng.choice(dirs)
+            sib = [os.path.basename(x[0]) for x in nodes if os.path.dirname(x[0]) == parent]
+            x = rng.choice(sib + ["missing"])
+            rel = parent + "/zodd%d" % rng.randint(0, 5)
+            if rel in used: continue
+            target = x + rng.choice(["/..", "/.", "/", "/../" + x, "/./", "//", "/../..", "/..//.", "/../zz-nothing", "/x/.."])
+            nodes.append((rel, "l", target)); used.add(rel)
     # every directory gets a uniquely named marker file, so that a listing identifies the directory it shows
     for i, (rel, kind, payload) in enumerate(list(nodes)):
         if kind == "d":
